@@ -2059,6 +2059,44 @@ class _ma:
         return out
 
     @staticmethod
+    def _mask_lines(a, rows, cols):
+        a = a if isinstance(a, MaskedArray) else _ma.masked_invalid(a)
+        if a.ndim != 2:
+            raise NotImplementedError("mask_rowcols works for 2D arrays only.")
+        m = a._mask
+        r, c = m.shape
+        bit = [[m._buf[m._idx[i * c + j]] for j in range(c)] for i in range(r)]
+        rowm = [E.s_or(*bit[i]) for i in range(r)]
+        colm = [E.s_or(*[bit[i][j] for i in range(r)]) for j in range(c)]
+        vals = []
+        for i in range(r):
+            for j in range(c):
+                parts = [bit[i][j]] if not (rows or cols) else []
+                if rows:
+                    parts.append(rowm[i])
+                if cols:
+                    parts.append(colm[j])
+                vals.append(E.s_or(*parts))
+        mask = ndarray._mk(m.shape, _scalar_dt("b1"), vals, list(range(len(vals))))
+        return MaskedArray(a.data, mask)
+
+    @staticmethod
+    def mask_rows(a, axis=None):
+        return _ma._mask_lines(a, True, False)
+
+    @staticmethod
+    def mask_cols(a, axis=None):
+        return _ma._mask_lines(a, False, True)
+
+    @staticmethod
+    def mask_rowcols(a, axis=None):
+        if axis == 0:
+            return _ma._mask_lines(a, True, False)
+        if axis in (1, -1):
+            return _ma._mask_lines(a, False, True)
+        return _ma._mask_lines(a, True, True)
+
+    @staticmethod
     def clump_masked(a):
         raise UnsupportedInShim("clump_masked")
 
